@@ -7,6 +7,9 @@ import time
 
 VERIF = os.path.dirname(os.path.dirname(os.path.abspath(__file__)))
 KNOWN = os.path.join(VERIF, 'known_findings.json')
+# where evidence/ and replay/ are written; the self-test points it at a scratch directory so that runs on
+# mutated copies never overwrite the evidence of the real tree
+OUT = os.environ.get('TD_OUT') or VERIF
 
 
 def _norm(s):
@@ -130,10 +133,10 @@ class Report:
                   f'{kf.get("what", "")}')
         code = 0
         if viols:
-            os.makedirs(os.path.join(VERIF, 'replay'), exist_ok=True)
+            os.makedirs(os.path.join(OUT, 'replay'), exist_ok=True)
             for o in viols:
                 h = hashlib.sha1(repr(o.key()).encode()).hexdigest()[:10]
-                path = os.path.join(VERIF, 'replay', f'{self.prop}-{o.rule}-{h}.json')
+                path = os.path.join(OUT, 'replay', f'{self.prop}-{o.rule}-{h}.json')
                 d = o.as_dict()
                 d['property'] = self.prop
                 d['replay_cmd'] = f'./check {self.prop} --replay {path}'
@@ -152,7 +155,7 @@ class Report:
         return code
 
     def _write_evidence(self, index, violations, known_hits, broken):
-        os.makedirs(os.path.join(VERIF, 'evidence'), exist_ok=True)
+        os.makedirs(os.path.join(OUT, 'evidence'), exist_ok=True)
         distinct = {o.key() for o in self.obls if o.nontrivial}
         by_rule = {}
         for o in self.obls:
@@ -208,7 +211,7 @@ class Report:
             'wall_s': round(time.time() - self.t0, 3),
             'violations': violations,
         }
-        with open(os.path.join(VERIF, 'evidence', f'{self.prop}.json'), 'w') as f:
+        with open(os.path.join(OUT, 'evidence', f'{self.prop}.json'), 'w') as f:
             json.dump(ev, f, indent=1, default=str)
 
 
